@@ -453,4 +453,27 @@ def dirSumDecomp (A : SpMat α) : Res (DecompOut α) :=
   | .panic => .panic
   | .err => .err
 
+/-! ### executable checker for the output of `dir_sum_decomp` (applied to the REAL outputs by the driver) -/
+
+/-- entry `(i,j)` of the block-diagonal sum of `blocks` (placed one after the other); zero outside the blocks -/
+def bdEntry : List (SpMat α) → Nat → Nat → α
+  | [], _, _ => zero
+  | b :: bs, i, j =>
+    if i < b.nrows ∧ j < b.ncols then entry b i j
+    else if b.nrows ≤ i ∧ b.ncols ≤ j then bdEntry bs (i - b.nrows) (j - b.ncols)
+    else zero
+
+/-- `p` (as the map `i ↦ p[i]`) is an injection of `0..n` into itself -/
+def permOk (p : Array Nat) (n : Nat) : Bool :=
+  p.size == n &&
+  ((List.range n).all fun i => decide (p.getD i 0 < n)) &&
+  ((List.range n).all fun i => (List.range n).all fun i' => i == i' || p.getD i 0 != p.getD i' 0)
+
+/-- permuted matrix = block-diagonal sum of the blocks + zero rows/columns -/
+def checkDecomp (A : SpMat α) (p q : Array Nat) (blocks : List (SpMat α)) : Bool :=
+  permOk p A.nrows && permOk q A.ncols &&
+  decide ((blocks.map (·.nrows)).foldl (· + ·) 0 ≤ A.nrows) && decide ((blocks.map (·.ncols)).foldl (· + ·) 0 ≤ A.ncols) &&
+  ((List.range A.nrows).all fun i => (List.range A.ncols).all fun j =>
+    isZero (sub (entry A i j) (bdEntry blocks (p.getD i 0) (q.getD j 0))))
+
 end Yuiv.C12
